@@ -1,11 +1,174 @@
 import Driver.Util
-/- line-protocol commands of the Sched family (stub: filled in by the family's build) -/
+import Driver.Session
+import AsyncFix.Model.LinkInv
+import Std.Data.HashSet
+
+/-!
+Line-protocol commands of the Sched family (`sched.*`).  Link part (`sched.link-*`, property C07; `Main` routes two-part command names only); every
+command is stateless: the whole event list is on the request line, the reply is the canonical trace.
+
+Events (separated by a `/` token), `<side>` = `I` | `A`, `<now>` = clock in ms, `<stamp>` = SendingTime token:
+  `s <side> <now> <stamp> <msg>`   application send_msg(msg) on that side
+  `d <side> <now> <stamp>`         the next frame in flight TOWARDS that side arrives
+  `b <now> <stamp>`                connection break
+  `r <now> <stamp>`                reconnect + initiator's Logon
+
+* `sched.link-run <k> <hb> <events>` — run from `Link.init hb`.  Reply: one segment per event, joined by ` | `:
+    `<effects> # <scalars I> # <scalars A> # <len toA> <len toI> <quiescent 0|1>`
+  and, after every k-th event and after the last one (k = 0: only the last), additionally
+    ` # FULL <conn I> ## <conn A> ## <n> <frames toA> ## <n> <frames toI>`
+  effects: `-` or `;`-joined `<side>:<effect>` (effect tokens of `sess.*`); scalars:
+  `<state> <role> <wasActive> <nextIn> <nextOut> <maxResend> <sock> <storedOut> <storedIn> <rows out> <rows in>`.
+* `sched.link-final <hb> <events>` — only the final summary:
+    `<quiescent> # <nextIn I> <nextOut I> <nextIn A> <nextOut A> # <n> <delivered I> # <n> <delivered A>
+     # <n> <accepted I> # <n> <accepted A>`   (messages as `sess.*` message tokens)
+* `sched.link-explore <depth> <hb>` — model-only breadth-first exploration over the 6-event alphabet with state
+  hashing; on every transition it checks `absLink (step l ev) = astep (absLink l) (absEv ev)`, `SafeInv`, `SyncInv`
+  and the property's clauses (delivered is a prefix of accepted; at quiescence counters match and nothing is lost).
+  Reply: `levels <new states per level> bad <n> <first failures: reason@path>`.
+-/
 namespace Driver.Sched
+
+open AsyncFix.Session AsyncFix.Link
+open Driver.Session (parseMsg showMsg showConn showEffect parseEnv)
 
 structure St where
   unit : Unit := ()
 
+def parseSide (t : String) : Option Side :=
+  if t == "I" then some .I else if t == "A" then some .A else none
+
+def showSide : Side → String
+  | .I => "I"
+  | .A => "A"
+
+def parseEv : List String → Option Ev
+  | ["s", s, now, stamp, m] => do pure (.appSend (← parseSide s) (← parseEnv now stamp) (← parseMsg m))
+  | ["d", s, now, stamp] => do pure (.deliverNext (← parseSide s) (← parseEnv now stamp))
+  | ["b", now, stamp] => do pure (.breakConn (← parseEnv now stamp))
+  | ["r", now, stamp] => do pure (.reconnect (← parseEnv now stamp))
+  | _ => none
+
+/-- split a token list at the `/` tokens -/
+def splitEvents (ts : List String) : List (List String) :=
+  let rec go : List String → List String → List (List String) → List (List String)
+    | [], cur, acc => (cur.reverse :: acc).reverse
+    | t :: r, cur, acc => if t == "/" then go r [] (cur.reverse :: acc) else go r (t :: cur) acc
+  if ts.isEmpty then [] else go ts [] []
+
+def parseEvents (ts : List String) : Option (List Ev) := (splitEvents ts).mapM parseEv
+
+def b01 (b : Bool) : String := if b then "1" else "0"
+
+def showScalars (c : Conn) : String :=
+  String.intercalate " " [toString c.state, toString c.role, b01 c.wasActive, toString c.sess.nextIn,
+    toString c.sess.nextOut, toString c.maxResend, b01 c.sock, toString c.journal.outSeq,
+    toString c.journal.inSeq, toString c.journal.out.length, toString c.journal.inb.length]
+
+def showMsgs (ms : List Msg) : String :=
+  String.intercalate " " (toString ms.length :: ms.map showMsg)
+
+def showLinkEffects (es : List (Side × Effect)) : String :=
+  if es.isEmpty then "-" else String.intercalate ";" (es.map fun p => showSide p.1 ++ ":" ++ showEffect p.2)
+
+def showLite (l : Link) : String :=
+  showLinkEffects l.eff ++ " # " ++ showScalars l.i ++ " # " ++ showScalars l.a ++ " # "
+    ++ toString l.toA.length ++ " " ++ toString l.toI.length ++ " " ++ b01 l.quiescent
+
+def showFull (l : Link) : String :=
+  "FULL " ++ showConn l.i ++ " ## " ++ showConn l.a ++ " ## " ++ showMsgs l.toA ++ " ## " ++ showMsgs l.toI
+
+def traceRun (k : Nat) : Link → Nat → List Ev → List String → List String
+  | _, _, [], acc => acc.reverse
+  | l, idx, ev :: rest, acc =>
+    let l1 := step l ev
+    let full := rest.isEmpty || (k != 0 && (idx + 1) % k == 0)
+    let seg := if full then showLite l1 ++ " # " ++ showFull l1 else showLite l1
+    traceRun k l1 (idx + 1) rest (seg :: acc)
+
+def showFinal (l : Link) : String :=
+  String.intercalate " # " [b01 l.quiescent,
+    String.intercalate " " [toString l.i.sess.nextIn, toString l.i.sess.nextOut, toString l.a.sess.nextIn,
+      toString l.a.sess.nextOut],
+    showMsgs l.delI, showMsgs l.delA, showMsgs l.accI, showMsgs l.accA]
+
+/-! ### model-only exhaustive exploration (state hashing), used to test candidate invariants -/
+
+def exploreEnv : Env := { now := 0, stamp := "20240102-00:00:00.000" }
+
+/-- the event alphabet at a state: the k-th payload of a side is determined by how many it has had accepted -/
+def alphabet (l : Link) : List (String × Ev) :=
+  [("sI", .appSend .I exploreEnv (Msg.mk' "D" [(58, "i" ++ toString l.accI.length)])),
+   ("sA", .appSend .A exploreEnv (Msg.mk' "D" [(58, "a" ++ toString l.accA.length)])),
+   ("dA", .deliverNext .A exploreEnv), ("dI", .deliverNext .I exploreEnv),
+   ("b", .breakConn exploreEnv), ("r", .reconnect exploreEnv)]
+
+def stateKey (l : Link) : String :=
+  showFull l ++ " ## " ++ showMsgs l.delI ++ " ## " ++ showMsgs l.delA ++ " ## " ++ showMsgs l.accI ++ " ## "
+    ++ showMsgs l.accA
+
+/-- the property's conclusion and the safety clauses, evaluated on a model state -/
+def checkState (l : Link) : Option String :=
+  let pI := l.delI.map payloadOf
+  let pA := l.delA.map payloadOf
+  let aI := l.accI.map payloadOf
+  let aA := l.accA.map payloadOf
+  if !(pI.isPrefixOf aA) then some "delivered-I-not-prefix"
+  else if !(pA.isPrefixOf aI) then some "delivered-A-not-prefix"
+  else if l.quiescent then
+    if l.i.sess.nextIn != l.a.sess.nextOut || l.a.sess.nextIn != l.i.sess.nextOut then some "quiescent-counters"
+    else if pI != aA || pA != aI then some "quiescent-lost"
+    else none
+  else none
+
+/-- hook evaluated on every explored transition: commutation of the abstraction with the step functions -/
+def checkAbs (l : Link) (ev : Ev) (l1 : Link) : Option String :=
+  if !(absLink l1 == astep (absLink l) (absEv ev)) then some "abs-commute"
+  else if !decide (SafeInv (absLink l1)) then some "safe-inv"
+  else if !decide (SyncInv (absLink l1)) then some "sync-inv"
+  else none
+
+def exploreLevel (seen : Std.HashSet String) (frontier : List (Link × List String)) :
+    Std.HashSet String × List (Link × List String) × List String :=
+  frontier.foldl (init := (seen, [], [])) fun (seen, next, bad) (l, path) =>
+    (alphabet l).foldl (init := (seen, next, bad)) fun (seen, next, bad) (name, ev) =>
+      let l1 := step l ev
+      let k := stateKey l1
+      if seen.contains k then (seen, next, bad)
+      else
+        let p := name :: path
+        let bad := match checkState l1 with
+          | some why => (why ++ "@" ++ String.intercalate "," p.reverse) :: bad
+          | none => bad
+        let bad := match checkAbs l ev l1 with
+          | some why => (why ++ "@" ++ String.intercalate "," p.reverse) :: bad
+          | none => bad
+        (seen.insert k, (l1, p) :: next, bad)
+
+def explore : Nat → Std.HashSet String → List (Link × List String) → List String → List Nat → List String × List Nat
+  | 0, _, _, bad, sizes => (bad, sizes.reverse)
+  | d + 1, seen, frontier, bad, sizes =>
+    let (seen, next, bad1) := exploreLevel seen frontier
+    explore d seen next (bad ++ bad1) (next.length :: sizes)
+
 def handle (st : St) (cmd : String) (args : List String) : St × String :=
-  (st, "bad-op")
+  match cmd, args with
+  | "link-run", k :: hb :: evT =>
+    match k.toNat?, tokInt hb, parseEvents evT with
+    | some k, some hb, some evs => (st, String.intercalate " | " (traceRun k (Link.init hb) 0 evs []))
+    | _, _, _ => (st, "bad-op")
+  | "link-final", hb :: evT =>
+    match tokInt hb, parseEvents evT with
+    | some hb, some evs => (st, showFinal (run (Link.init hb) evs))
+    | _, _ => (st, "bad-op")
+  | "link-explore", [d, hb] =>
+    match d.toNat?, tokInt hb with
+    | some d, some hb =>
+      let l0 := Link.init hb
+      let (bad, sizes) := explore d (Std.HashSet.emptyWithCapacity.insert (stateKey l0)) [(l0, [])] [] []
+      (st, "levels " ++ String.intercalate "," (sizes.map toString) ++ " bad " ++ toString bad.length ++ " "
+        ++ String.intercalate " " (bad.take 5))
+    | _, _ => (st, "bad-op")
+  | _, _ => (st, "bad-op")
 
 end Driver.Sched
